@@ -14,11 +14,16 @@ product of the dimensions it names, all other dimensions at a base value (family
                an offset may point anywhere in the entry area; aapt never writes it) for every matrix with n >= 2
   B kinds      every type x every ordered pair of entry encodings legal for that type (plain / compact / complex with 0-2
                items / reference, typed values) x chunk encoding x configuration set x entry flags {0, PUBLIC, WEAK, both}
-  C refs       acyclic reference chains of length 1-2: source kind {plain, compact, complex item, two complex items} x
+  C refs       acyclic reference chains of length 1-2: source kind {plain, compact, complex item, two complex items, and
+               the diamonds: a bag referencing ONE target from two items (adjacent / with a concrete item between), a bag
+               reaching one target through two different intermediate entries} x
                target kind {plain, compact, complex, chain on} x target location {same type, other type, other package}
                x configuration sets of source and target (quick 5 x 5, thorough 15 x 15) x chunk encoding
   D types      every non-empty subset of the 7 types x {1, 2} packages x chunk encoding x string pool encodings
                {utf8, utf16, mixed} x type-id gap
+  H history    on ONE parser object: every listing API -> one query (of 19) for something the table does not contain (absent
+               locale / config / key / type / id / package) -> every listing API again, and the same without the first
+               listing round; the listings must still describe the table (thorough: two queries)
   E pairs      14 global dimensions (packages, type set, entry presence, configuration set, staggered configurations, entry
                kind profile, flags, chunk encoding incl. mixed per configuration, pool encodings, ResTable_config size
                28..64, trimmed trailing holes, unused pool prefix, type-id gap, entry-area layout): every pair of values of every pair of
@@ -174,6 +179,9 @@ class _Cells:
             return ["x", 0, [[arr, self.value("p-str", cfg)], [arr + 1, ["ref"] + list(target)]]]
         if kind == "xrr":
             return ["x", 0, [[arr, ["ref"] + list(target)], [arr + 1, ["ref"] + list(target2 or target)]]]
+        if kind == "xrsr":      # diamond: the same target referenced twice with a concrete item in between
+            return ["x", 0, [[arr, ["ref"] + list(target)], [arr + 1, self.value("p-str", cfg)],
+                             [arr + 2, ["ref"] + list(target)]]]
         raise ValueError(kind)
 
 
@@ -253,7 +261,7 @@ def build_b(p):
     return {"pkgs": [{"id": 0x7F, "name": "com.a", "types": types}]}
 
 
-C_SRC = ["p-ref", "c-ref", "xr", "xrr"]
+C_SRC = ["p-ref", "c-ref", "xr", "xrr", "xrsr", "xvia"]   # xrr / xrsr: one target twice; xvia: two intermediates, one final target
 C_T1 = ["p-str", "c-str", "x1", "p-ref", "xr"]
 C_T2 = ["p-str", "c-str", "x1"]
 C_NCS = 5            # quick: the first five of CFGSETS: [""], ["", en], [en], all four, [de-rDE, fr-hdpi]; thorough: all 15
@@ -263,6 +271,8 @@ C_LOC = ["same", "type", "pkg"]
 def _c_names(s, t1, loc):
     """type names of the source and the first target, or None if the combination does not exist."""
     src_bag, t1_bag = s[0] == "x", t1[0] == "x"
+    if s == "xvia" and loc != "type":
+        return None
     if loc == "same":
         if src_bag != t1_bag:
             return None
@@ -308,6 +318,19 @@ def build_c(p):
         pkgs[ref[0]]["types"][ref[1]]["e"][ref[2]] = entry
     nsrc, nt1 = _c_names(s, t1, loc)
     rs = alloc(0, nsrc)
+    if s == "xvia":
+        # diamond through two different intermediate entries (one plain, one compact reference) that share the final
+        # target t1 (which may itself chain on to t2)
+        m1, m2 = alloc(0, "string"), alloc(0, "string")
+        r1 = alloc(0, nt1)
+        r2 = alloc(0, "array" if t2[0] == "x" else "string") if t2 else None
+        put(rs, _entry(cells, "src", "xrr", cs, 0, m1, m2))
+        put(m1, _entry(cells, "via1", "p-ref", ct, 0, r1))
+        put(m2, _entry(cells, "via2", "c-ref", ct, 0, r1))
+        put(r1, _entry(cells, "t1", t1, ct, 0, r2, r2))
+        if t2:
+            put(r2, _entry(cells, "t2", t2, ct))
+        return {"pkgs": pkgs}
     r1 = alloc(1 if loc == "pkg" else 0, nt1)
     r2 = alloc(0, "array" if t2[0] == "x" else "string") if t2 else None
     put(rs, _entry(cells, "src", s, cs, 0, r1, r1))
@@ -426,8 +449,141 @@ def build_e(p):
     return {"pkgs": pkgs, "utf8": pool[0], "csize": v["csize"], "prefix": v["prefix"]}
 
 
+# ---- family H: histories on ONE parser object ----------------------------------------------------------------------
+# (a) every listing  ->  (b) 1 (thorough: 2) queries that ask for something the table does not contain  ->  (c) every
+# listing again.  (c) has to equal the model (a read accessor must not change what the table is reported to contain).
+# Both the history with (a) and the one without it (fresh parser, b, c) are run: some listings cache their first answer.
+ABSENT_LOCALE = "it"
+ABSENT_PKG = "absent.pkg"
+QUERIES = [
+    ("get_string(absent-locale)", lambda a, x: a.get_string(x["pkg"], x["key"], ABSENT_LOCALE)),
+    ("get_string(absent-key)", lambda a, x: a.get_string(x["pkg"], "no_such_key")),
+    ("get_string(absent-package)", lambda a, x: a.get_string(ABSENT_PKG, x["key"])),
+    ("get_string_resources(absent-locale)", lambda a, x: a.get_string_resources(x["pkg"], ABSENT_LOCALE)),
+    ("get_public_resources(absent-locale)", lambda a, x: a.get_public_resources(x["pkg"], ABSENT_LOCALE)),
+    ("get_integer_resources(absent-locale)", lambda a, x: a.get_integer_resources(x["pkg"], ABSENT_LOCALE)),
+    ("get_id(absent-locale)", lambda a, x: a.get_id(x["pkg"], x["rid"], ABSENT_LOCALE)),
+    ("get_types(absent-locale)", lambda a, x: a.get_types(x["pkg"], ABSENT_LOCALE)),
+    ("get_locales(absent-package)", lambda a, x: a.get_locales(ABSENT_PKG)),
+    ("get_res_configs(absent-config)", lambda a, x: a.get_res_configs(x["rid"], x["cfg"])),
+    ("get_resolved_res_configs(absent-config)", lambda a, x: a.get_resolved_res_configs(x["rid"], x["cfg"])),
+    ("get_res_configs(absent-id)", lambda a, x: a.get_res_configs(0x7F7F0077)),
+    ("get_resolved_res_configs(absent-id)", lambda a, x: a.get_resolved_res_configs(0x7F7F0077)),
+    ("get_res_id_by_key(absent-key)", lambda a, x: a.get_res_id_by_key(x["pkg"], x["type"], "no_such_key")),
+    ("get_res_id_by_key(absent-type)", lambda a, x: a.get_res_id_by_key(x["pkg"], "notype", x["key"])),
+    ("get_type_configs(absent-type)", lambda a, x: a.get_type_configs(x["pkg"], "notype")),
+    ("get_type_configs(absent-package)", lambda a, x: a.get_type_configs(ABSENT_PKG)),
+    ("get_resource_xml_name(absent-id)", lambda a, x: a.get_resource_xml_name(0x7F7F0077)),
+    ("get_items(absent-package)", lambda a, x: a.get_items(ABSENT_PKG)),
+]
+
+
+def _h_tables(ctx):
+    for n in (1, 2):
+        for bits in range(1, 1 << (4 * n)):
+            yield ("A", n, bits, "dense", "plain", 0)
+    for mask in [1 << i for i in range(7)] + [(1 << i) | (1 << j) for i in range(7) for j in range(i)] + [127]:
+        for npk in (1, 2):
+            yield ("D", mask, npk, "sparse" if npk == 2 else "dense", 0, 0)
+
+
+def fam_h(ctx):
+    nq = len(QUERIES)
+    for src in _h_tables(ctx):
+        for q in range(nq):
+            for with_a in ((1, 0) if src[0] == "A" else (1,)):
+                yield ("H", list(src), [q], with_a)
+        if ctx.thorough and src[0] == "A":
+            for q1 in range(nq):
+                for q2 in range(nq):
+                    if q1 != q2:
+                        yield ("H", list(src), [q1, q2], 1)
+
+
+def build_h(p):
+    src = tuple(p[1])
+    return FAMILIES[src[0]][1](src)
+
+
+def _listing_snapshot(a, axml, ref):
+    """{api: value} for every listing; per-package listings are asked for the packages of the MODEL."""
+    import re
+
+    def safe(f):
+        try:
+            return f()
+        except Exception as e:      # noqa
+            return "EXC:" + type(e).__name__
+    snap = {"get_packages_names": safe(lambda: list(a.get_packages_names()))}
+    for p in ref.get_packages_names():
+        snap["get_locales"] = snap.get("get_locales", []) + [safe(lambda: sorted(a.get_locales(p)))]
+        snap["get_types"] = snap.get("get_types", []) + [
+            safe(lambda: sorted(set(a.get_types(p, l)) - {"public"})) for l in sorted(ref.get_locales(p))]
+        snap["get_type_configs"] = snap.get("get_type_configs", []) + [
+            safe(lambda: sorted((k, sorted(_words(c) for c in v)) for k, v in a.get_type_configs(p).items()))]
+    snap["get_strings_resources"] = safe(lambda: sorted(re.findall(r"<locale value=(.*?)>", a.get_strings_resources().decode("utf-8"))))
+    snap["get_resolved_strings"] = safe(lambda: sorted((p, sorted(v)) for p, v in a.get_resolved_strings().items()))
+    snap["get_arsc_info"] = safe(lambda: sorted(re.findall(r"^\t(\S.*):$", axml.get_arsc_info(a), re.M)))
+    return snap
+
+
+def _listing_model(ref):
+    pk = ref.get_packages_names()
+    loc = {p: sorted(ref.get_locales(p)) for p in pk}
+    m = {"get_packages_names": pk, "get_locales": [loc[p] for p in pk],
+         "get_types": [sorted(ref.get_types(p, l)) for p in pk for l in loc[p]],
+         "get_type_configs": [sorted(ref.get_type_configs(p).items()) for p in pk],
+         "get_strings_resources": sorted(repr(l) for p in pk for l in loc[p]),
+         "get_resolved_strings": sorted((p, sorted("DEFAULT" if l == "\x00\x00" else l for l in loc[p])) for p in pk),
+         "get_arsc_info": sorted(repr(l) for p in pk for l in loc[p])}
+    return m
+
+
+def judge_history(spec, queries, with_a):
+    from androguard.core import axml
+    from gen import arscgen as G
+    from ref import resolver as RR
+    table = table_from_spec(spec)
+    data = G.serialise(table)
+    ref = RR.RefResolver(table)
+    out = []
+    a = axml.ARSCParser(data)
+    model = _listing_model(ref)
+    rid, p, t, e = next(iter(table.iter_entries()))
+    x = {"pkg": p.name, "key": e.key, "rid": rid, "type": t.name,
+         "cfg": axml.ARSCResTableConfig(None, locale=ABSENT_LOCALE, density=320)}
+    # get_arsc_info also renders every value listing (get_bool_resources ...), which are outside this property and may
+    # raise on their own; it is judged only when it worked before the queries
+    judged = [api for api in model if api != "get_arsc_info"]
+    if with_a:
+        first = _listing_snapshot(a, axml, ref)
+        if not (isinstance(first["get_arsc_info"], str) and first["get_arsc_info"].startswith("EXC:")):
+            judged.append("get_arsc_info")
+        for api in judged:
+            if first[api] != model[api]:
+                out.append(("listing:%s:fresh" % api, "%s on a fresh parser lists %r, the table contains %r" % (api, first[api], model[api])))
+        if out:
+            return out, data
+    names = []
+    for q in queries:
+        names.append(QUERIES[q][0])
+        try:
+            QUERIES[q][1](a, x)
+        except Exception:       # noqa  -- what the query itself answers is not judged here
+            pass
+    after = _listing_snapshot(a, axml, ref)
+    for api in judged:
+        if after[api] != model[api]:
+            if out and api in ("get_strings_resources", "get_resolved_strings", "get_arsc_info"):
+                continue        # these are rendered from get_packages_names / get_locales, which already differ
+            out.append(("listing:%s:after:%s" % (api, "+".join(names)),
+                        "after %s%s, %s lists %r; the table contains %r"
+                        % ("the listings and then " if with_a else "", " and ".join(names), api, after[api], model[api])))
+    return out, data
+
+
 FAMILIES = {"A": (fam_a, build_a, 24), "B": (fam_b, build_b, 8), "C": (fam_c, build_c, 16), "D": (fam_d, build_d, 8),
-            "E": (fam_e, build_e, 8)}
+            "E": (fam_e, build_e, 8), "H": (fam_h, build_h, 8)}
 
 
 # ---------------------------------------------------------------------------------------------------------------------
@@ -460,7 +616,15 @@ def _entry_feature(ref, rid):
                 tgt = ref.res.get(v[2])
                 cl = "ref->" + ("/".join(sorted({x.kind for x in tgt[2].values.values()})) if tgt else "absent")
             parts.append(cl)
-        feats[ev.kind + "[" + ",".join(parts) + "]"] = (_RANK[ev.kind], has_ref)
+        dia = ""
+        if ev.kind == "complex":
+            direct = [v[2] for v in vals if _value_class(v) == "ref"]
+            beyond = [t for d in direct for t in _ref_targets(ref, d)]
+            if len(set(direct)) < len(direct):
+                dia = "diamond:"            # one target referenced by two items
+            elif len(set(beyond)) < len(beyond):
+                dia = "diamond-via:"        # two items reach one target through different intermediate entries
+        feats[ev.kind + "[" + dia + ",".join(parts) + "]"] = (_RANK[ev.kind], has_ref)
     top = max(feats.values())
     return "+".join(sorted(f for f, r in feats.items() if r == top))
 
@@ -680,6 +844,12 @@ def _nontrivial(spec):
 
 def check_one(acc, params):
     spec = FAMILIES[params[0]][1](params)
+    if params[0] == "H":
+        viol, data = judge_history(spec, params[2], params[3])
+        acc.case(nontrivial=params, outcome=("H", params[2][0], len(viol)))
+        for key, msg in viol:
+            acc.violation(key, {"params": list(params), "spec": spec, "history": {"queries": params[2], "with_a": params[3]}}, msg)
+        return spec, data
     viol, data = judge(spec)
     acc.case(nontrivial=params if _nontrivial(spec) else None, outcome=(len(data) // 64, len(viol)))
     for key, msg in viol:
@@ -708,7 +878,10 @@ def run_shard(ctx, shard):
 
 
 def replay(ctx, w):
-    viol, _ = judge(w["spec"])
+    if "history" in w:
+        viol, _ = judge_history(w["spec"], w["history"]["queries"], w["history"]["with_a"])
+    else:
+        viol, _ = judge(w["spec"])
     if viol:
         return "\n".join("%s: %s" % kv for kv in viol[:6])
     return None
@@ -730,6 +903,11 @@ def space(ctx):
             "E": {"dimensions": {n: len(a) for n, a in E_DIMS}, "bases": E_BASES,
                   "order": "all pairs around both bases" + ("; all triples around base 0" if ctx.thorough else "")},
         },
+        "H": {"histories": "on one parser object: (all listings) -> query -> all listings; and: query -> all listings",
+              "tables": "family A n<=2 dense (270) + family D single/pair/full type sets x {1,2} packages (58)",
+              "queries": [q for q, _f in QUERIES], "depth": 2 if ctx.thorough else 1,
+              "listings": ["get_packages_names", "get_locales", "get_types", "get_type_configs", "get_strings_resources",
+                           "get_resolved_strings", "get_arsc_info"]},
         "tables": sizes, "total_tables": sum(sizes.values()),
         "queries_per_table": "every resource id (holes included) x {all configs, each of the 4 configs when stored}; "
                              "packages, locales, types, type configs, id by key, get_string per locale",
